@@ -171,7 +171,7 @@ func init() {
 
 var profC09 = Profile{
 	MaxProcs: 5, MaxItems: 4, Bufsizes: []int{0, 1, 2}, MaxSlots: 5,
-	Params: true, MultiOut: true, FanIn: true, FanOut: true, NoPort: true, Custom: false, Sinkless: true,
+	Params: true, MultiOut: true, FanIn: true, FanOut: true, NoPort: true, Custom: true, Sinkless: true,
 	Subdirs: true, Cores: true, TwoSources: true, Zip: true,
 }
 
